@@ -99,6 +99,10 @@ def integrate_instances(tier, prop):
                 out.append(dict(id="integrate-euler-%s-%s-N2-detector-fault%d" % (evs, "dense" if dense else "nodense", k), kind="integrate", family="euler",
                                 events=[evs], dense=dense, N=2, max_reports=2, fault_call=k, budget=b))
     if prop == "C09":
+        # two calls; between them the user flips is_terminal on the same event function object (non-terminal -> terminal and back)
+        for evs in ("n", "T"):
+            out.append(dict(id="integrate-euler-%s-dense-N2-two-calls-flip-terminal" % evs, kind="integrate", family="euler", events=[evs], dense=True, N=2,
+                            max_reports=2, two_calls=True, flip_terminal=True, budget=b))
         out.append(dict(id="integrate-euler-T-infinite-tf", kind="integrate", family="euler", events=["T"], dense=True, N=2, infinite_tf=True, max_reports=2, budget=b))
     return out
 
